@@ -1,6 +1,49 @@
 import SigpyVerif.Model.Py
 import SigpyVerif.Model.Proto
+import SigpyVerif.Model.C20
 namespace SigpyVerif.Drv.C20
+open SigpyVerif SigpyVerif.Proto SigpyVerif.C20
+
+def getRat (toks : List String) (k : String) : Option Rat := (kv toks k).bind parseRat?
+def getNat (toks : List String) (k : String) : Option Nat := ((kv toks k).bind parseInt?).map Int.toNat
+def getIdx (toks : List String) : List Nat := (((kv toks "idx").bind parseIntList?).getD []).map Int.toNat
+
+def replyDesign (d : Design Rat) (idx : List Nat) : String :=
+  let w := d.wave
+  let smp := idx.map fun i => w.getD i 0
+  s!"ok r={d.ramppts} nflat={d.nflat} len={w.length} scale={fmtRat d.scale} sum={fmtRat w.sum} flatsum={fmtRat d.flat.sum} | {fmtRatList smp}"
+
+/-- blips of one axis: `;`-separated, each `none` or an integer list -/
+def parseBlips (s : String) : Option (List (Option (List Rat))) :=
+  if s == "-" then some [] else
+  (s.splitOn ";").mapM fun t => if t == "none" then some none else (parseRatList? t).map some
+
 /-- protocol handler for property C20 (tokens after the property id). -/
-def handle (_toks : List String) : String := "err bad-op"
+def handle (toks : List String) : String :=
+  match toks.head? with
+  | some "trap" =>
+    match getRat toks "area", getRat toks "gmax", getRat toks "dgdt", getRat toks "dt", getNat toks "hc" with
+    | some area, some gmax, some dgdt, some dt, some hc =>
+      if !(0 < area && 0 < gmax && 0 < dgdt && 0 < dt) then "err domain" else
+      if !trapHintOk area dgdt dt hc then "err bad-hint" else
+      replyDesign (trapGrad (ratOps hc 0) area gmax dgdt dt) (getIdx toks)
+    | _, _, _, _, _ => "err bad-op"
+  | some "mintrap" =>
+    match getRat toks "area", getRat toks "gmax", getRat toks "dgdt", getRat toks "dt", getNat toks "hf" with
+    | some area, some gmax, some dgdt, some dt, some hf =>
+      if !(0 < area && 0 < gmax && 0 < dgdt && 0 < dt) then "err domain" else
+      if !minHintOk area dgdt dt hf then "err bad-hint" else
+      match minTrapGrad (ratOps 0 hf) area gmax dgdt dt with
+      | some d => replyDesign d (getIdx toks)
+      | none => "err value"
+    | _, _, _, _, _ => "err bad-op"
+  | some "spokesaxis" =>
+    match getNat toks "nsub", getNat toks "nref", (kv toks "blips").bind parseBlips with
+    | some nsub, some nref, some bl => s!"ok {fmtRatList (spokesAxis nsub nref bl)}"
+    | _, _, _ => "err bad-op"
+  | some "spokesgz" =>
+    match (kv toks "sub").bind parseRatList?, (kv toks "ref").bind parseRatList?, getNat toks "n" with
+    | some sub, some ref, some n => s!"ok {fmtRatList (spokesGz sub ref n)}"
+    | _, _, _ => "err bad-op"
+  | _ => "err bad-op"
 end SigpyVerif.Drv.C20
